@@ -178,10 +178,18 @@ class Ctx:
     def do_execute(self, who, rid, pid):
         spec = self.scn["payloads"][str(pid)]
         fl = spec["flavour"]
+        if not self.runners[rid].running.is_set():
+            return            # the runtime is (being) stopped: scripted callers stop calling
         fn = make_payload(self, pid, executed=True)
         args = decode_args(spec.get("args", []))
         kwargs = {k: decode_arg(v) for k, v in spec.get("kwargs", {}).items()}
-        log("ExecCall", who, rid, pid, fl)
+        if "shared" in spec:
+            tok = thread_token()
+            with LOCK:        # announce, then make the id available to the shared function, atomically
+                LOG.append({"t": round(time.monotonic() - T0, 4), "tid": tok, "ev": ["ExecCall", who, rid, pid, fl]})
+                SHARED[spec["shared"]][1].append(pid)
+        else:
+            log("ExecCall", who, rid, pid, fl)
         try:
             res = self.runners[rid].execute(fn, *args, flavour=FLAV[fl], **kwargs)
             want = PAYLOAD_OBJ.get(("p", pid), None)
@@ -193,7 +201,12 @@ class Ctx:
                 out = ["ret_val", -1, "different:%r" % (res,)]
         except BaseException as e:  # noqa
             want = PAYLOAD_OBJ.get(("p", pid), None)
-            if e is want:
+            import concurrent.futures
+            if e is not want and (isinstance(e, (asyncio.CancelledError, concurrent.futures.CancelledError,
+                                                 trio.RunFinishedError, trio.Cancelled))
+                                  or not self.runners[rid].running.is_set()):
+                out = ["aborted", type(e).__name__]
+            elif e is want:
                 out = ["raise", spec_end(spec)[1], "same"]
             elif want is not None and type(e) is type(want) and e.args == getattr(want, "args", None):
                 out = ["raise", spec_end(spec)[1], "copy"]
@@ -439,6 +452,8 @@ def run_sync(ctx, key, spec, args, kwargs=None, executed=False):
             ctx.do_adopt(who, st[1], st[2])
         elif op == "execute":
             ctx.do_execute(who, st[1], st[2])
+        elif op == "adopt_private_loop":
+            adopt_in_private_loop(ctx, who, st[1], st[2])
         elif op == "service":
             ctx.do_service(who, st[1])
         elif op == "shutdown":
@@ -466,8 +481,40 @@ def run_sync(ctx, key, spec, args, kwargs=None, executed=False):
     return None
 
 
+SHARED = {}          # group name -> (function object, deque of payload ids waiting to be run)
+
+
 def make_payload(ctx, pid, executed=False):
     spec = ctx.scn["payloads"][str(pid)]
+    if "callfail" in spec:
+        # a payload that fails when it is CALLED (before any coroutine exists), e.g. a plain callable
+        def payload(*args, **kwargs):
+            start_event(("p", pid), spec["flavour"], args, kwargs, spec)
+            e = make_exc(spec["callfail"])
+            PAYLOAD_OBJ[("p", pid)] = e
+            finish(("p", pid), spec, "raise", spec["callfail"])
+            raise e
+        payload.__name__ = "payload_%d" % pid
+        return payload
+    if "shared" in spec:
+        # several executions of ONE function object: every run takes the next waiting payload id
+        import collections
+        with LOCK:
+            ent = SHARED.get(spec["shared"])
+            if ent is None:
+                q = collections.deque()
+
+                async def shared_payload():
+                    mypid = q.popleft()
+                    myspec = ctx.scn["payloads"][str(mypid)]
+                    return await run_async(ctx, ("p", mypid), myspec, (), {}, True)
+
+                def shared_sync():
+                    mypid = q.popleft()
+                    myspec = ctx.scn["payloads"][str(mypid)]
+                    return run_sync(ctx, ("p", mypid), myspec, (), {}, True)
+                ent = SHARED[spec["shared"]] = ((shared_sync if spec["flavour"] == "threading" else shared_payload), q)
+        return ent[0]
     if spec["flavour"] == "threading":
         def payload(*args, **kwargs):
             return run_sync(ctx, ("p", pid), spec, args, kwargs, executed)
@@ -481,11 +528,22 @@ def make_payload(ctx, pid, executed=False):
 # ------------------------------------------------------------------------------------------
 # actors: main thread and helper threads run small programs
 # ------------------------------------------------------------------------------------------
+def adopt_in_private_loop(ctx, who, rid, pid):
+    """adopt from a thread that is driving an asyncio event loop of its own (e.g. a thread payload that
+    uses asyncio.run for its own purposes)"""
+    async def inner():
+        ctx.do_adopt(who, rid, pid)
+        await asyncio.sleep(0)
+    asyncio.run(inner())
+
+
 def run_program(ctx, who, prog):
     for st in prog:
         op = st[0]
         if op == "adopt":
             ctx.do_adopt(who, st[1], st[2])
+        elif op == "adopt_private_loop":
+            adopt_in_private_loop(ctx, who, st[1], st[2])
         elif op == "execute":
             ctx.do_execute(who, st[1], st[2])
         elif op == "service":
@@ -514,13 +572,54 @@ def run_program(ctx, who, prog):
             raise RuntimeError("bad program op %r" % (st,))
 
 
+def install_perturbation(cfg):
+    """Schedule perturbation: with probability cfg['p'] per executed source line of the runtime's own
+    modules (cobald/daemon/runners/*.py) the executing thread sleeps cfg['sleep'] seconds.  This widens
+    every preemption window the OS scheduler could produce anyway; it changes no behaviour."""
+    import random
+    rnd = random.Random(cfg.get("seed", 0))
+    p, dt = cfg.get("p", 0.02), cfg.get("sleep", 0.002)
+    funcs = set(cfg.get("funcs") or [])          # restrict to these function names (empty = all)
+    per_call = cfg.get("max", 10 ** 9)           # at most this many delays inside one call of a function
+    total = [cfg.get("total", 10 ** 9)]          # ... and this many in the whole scenario
+    rlock = threading.Lock()
+    marker = os.sep + os.path.join("cobald", "daemon", "runners") + os.sep
+
+    def make_local():
+        used = [0]
+
+        def local(frame, event, arg):
+            if event == "line":
+                with rlock:
+                    hit = rnd.random() < p and used[0] < per_call and total[0] > 0
+                    if hit:
+                        used[0] += 1
+                        total[0] -= 1
+                if hit:
+                    time.sleep(dt)
+            return local
+        return local
+
+    def tracer(frame, event, arg):
+        if event == "call" and marker in frame.f_code.co_filename:
+            if not funcs or frame.f_code.co_qualname in funcs:
+                return make_local()
+        return None
+    threading.settrace(tracer)
+    sys.settrace(tracer)
+
+
 def main():
     with open(sys.argv[1]) as fh:
         scn = json.load(fh)
     if scn.get("switchinterval"):
         sys.setswitchinterval(scn["switchinterval"])
+    import io
     import logging
-    logging.disable(logging.CRITICAL)
+    # the runtime logs as a real daemon would (formatting work included), into an in-memory sink
+    logging.basicConfig(stream=io.StringIO(), level=logging.DEBUG)
+    if scn.get("perturb"):
+        install_perturbation(scn["perturb"])
     ctx = Ctx(scn)
     done = threading.Event()
     helpers = []
